@@ -8,5 +8,6 @@ CONSTANTS
   Gran = 1
   MinWait = 1000
   Prompt = 1000
+  WaitLimit = 300000
 INVARIANT Inv_C01 Inv_C02 Inv_C03 Inv_C09 Inv_C10 Inv_C11 Summary
 POSTCONDITION TraceAccepted
